@@ -18,6 +18,9 @@ import OFV.Proofs.C07DoubleComm
 import OFV.Proofs.C07DCMain
 import OFV.Proofs.C07TermInfo
 import OFV.Proofs.C07BosonAdj
+import OFV.Proofs.C07BosonKey
+import OFV.Proofs.C07BosonOp
+import OFV.Proofs.C07HcOp
 import OFV.Proofs.C07BCH8
 import OFV.Proofs.C07BCHExp
 import OFV.Proofs.C07BCHUniv
@@ -188,6 +191,26 @@ theorem hc_qubit_terms (A : List (List (Nat × Nat) × GQ)) (hk : (Dict.keys A).
   unfold hcQubit
   have := foldl_set_fresh (κ := List (Nat × Nat)) (α := GQ) id GQ.conj A [] (by simpa [Dict.keys] using hk)
   simpa using this
+
+/-- **`hc_fermion_operator_adjoint`** — FermionOperator branch at operator level, for ALL stored operators
+(distinct keys, ladder terms, complex coefficients): every Fock matrix element of the dictionary the Model
+function returns is the conjugate-transposed matrix element of the argument,
+`⟨u| hermitian_conjugated(A) |s⟩ = conj ⟨s| A |u⟩` with `⟨u|A|s⟩ = Σ c · ⟨u|t|s⟩` (`den`). -/
+theorem hc_fermion_operator_adjoint (A : List (List (Nat × Nat) × GQ)) (hk : (Dict.keys A).Nodup)
+    (hl : ∀ e ∈ A, Ladder e.1) (s u : Nat) :
+    den (fun t => GQ.ofInt (ampF t s u)) (hcFermion A) = GQ.conj (den (fun t => GQ.ofInt (ampF t u s)) A) := by
+  rw [hc_fermion_terms A hk hl]
+  apply Proofs.C07A.den_image_conj
+  intro e he
+  rw [hc_fermion_term_sound e.1 (hl e he) s u, Proofs.C07A.conj_ofInt]
+
+/-- **`hc_qubit_operator_adjoint`** — QubitOperator branch at operator level, for ALL stored operators whose
+keys are Pauli strings: `⟨u| hermitian_conjugated(A) |s⟩ = conj ⟨s| A |u⟩`. -/
+theorem hc_qubit_operator_adjoint (A : List (List (Nat × Nat) × GQ)) (hk : (Dict.keys A).Nodup)
+    (hp : ∀ e ∈ A, PauliString e.1) (s u : Nat) :
+    den (fun t => ampP t s u) (hcQubit A) = GQ.conj (den (fun t => ampP t u s) A) := by
+  rw [hc_qubit_terms A hk]
+  exact Proofs.C07A.den_image_conj id _ _ A (fun e he => Proofs.C07A.ampP_hermitian e.1 (hp e he) s u)
 
 /-! ### dual-basis shortcuts -/
 
@@ -469,6 +492,48 @@ example : Proofs.C07A.melB [(0, 1), (0, 1), (1, 0)] [1, 2] [3, 1] = 2 ∧
     Proofs.C06B.wfact [3, 1] = 6 ∧ Proofs.C06B.wfact [1, 2] = 2 := by
   refine ⟨by decide +kernel, by decide +kernel, by decide, by decide⟩
 
+/-- **`hc_boson_key_injective`**: on the terms a BosonOperator stores (ladder words sorted by mode index,
+as `_simplify` leaves them) the key map `t ↦ sorted(reverse-and-flip(t))` of `hermitian_conjugated` is
+injective — the stable sort keeps the sub-word of every mode, and an index-sorted word is determined by
+its sub-words. -/
+theorem hc_boson_key_injective (t₁ t₂ : List (Nat × Nat))
+    (s₁ : t₁.Pairwise (fun a b => a.1 ≤ b.1)) (s₂ : t₂.Pairwise (fun a b => a.1 ≤ b.1))
+    (l₁ : ∀ f ∈ t₁, f.2 ≤ 1) (l₂ : ∀ f ∈ t₂, f.2 ≤ 1)
+    (h : sortF (hcTermF t₁) = sortF (hcTermF t₂)) : t₁ = t₂ :=
+  Proofs.C07K.key_injective t₁ t₂ s₁ s₂ l₁ l₂ h
+
+/-- **`hc_boson_terms`** — BosonOperator branch, dictionary level, for ALL stored operators: the plain
+assignment `conjugate_operator.terms[key] = coefficient.conjugate()` never overwrites; the Model function
+the driver executes returns the term-by-term image `(sorted(reverse-and-flip(t)), conj c)`, in order. -/
+theorem hc_boson_terms (A : List (List (Nat × Nat) × GQ)) (hk : (Dict.keys A).Nodup)
+    (hs : ∀ e ∈ A, e.1.Pairwise (fun a b => a.1 ≤ b.1)) (hl : ∀ e ∈ A, ∀ f ∈ e.1, f.2 ≤ 1) :
+    hcBoson A = A.map (fun e => (sortF (hcTermF e.1), e.2.conj)) :=
+  Proofs.C07K.hcBoson_terms A hk hs hl
+
+/-- **`hc_boson_operator_adjoint`** — the Model function the driver executes against the Spec, for ALL
+stored BosonOperators (distinct keys, ladder words sorted by mode index, arbitrary complex coefficients):
+`hermitian_conjugated(A)` is the adjoint of `A` for the Fock inner product of the polynomial
+representation, `⟨x^{e1}, A x^{e0}⟩ = ⟨A† x^{e1}, x^{e0}⟩` for all canonical exponent vectors:
+`(Σ_t c_t ⟨t⟩_{e0→e1}) · Π e1_i! = conj(Σ_{t'} c'_{t'} ⟨t'⟩_{e1→e0}) · Π e0_i!` with `(t', c')` ranging over
+the returned dictionary `hcBoson A` (`den φ A = Σ c · φ(t)`). -/
+theorem hc_boson_operator_adjoint (A : List (List (Nat × Nat) × GQ)) (hk : (Dict.keys A).Nodup)
+    (hs : ∀ e ∈ A, e.1.Pairwise (fun a b => a.1 ≤ b.1)) (hl : ∀ e ∈ A, ∀ f ∈ e.1, f.2 ≤ 1)
+    (e0 e1 : Spec.Mono) (h0 : Spec.trimZeros e0 = e0) (h1 : Spec.trimZeros e1 = e1) :
+    den (fun t => Proofs.C07A.melB t e0 e1) A * GQ.ofInt (Proofs.C06B.wfact e1 : Int) =
+      GQ.conj (den (fun t => Proofs.C07A.melB t e1 e0) (hcBoson A)) * GQ.ofInt (Proofs.C06B.wfact e0 : Int) := by
+  rw [Proofs.C07K.hcBoson_terms A hk hs hl]
+  exact Proofs.C07A.hcBoson_image_adjoint A hl e0 e1 h0 h1
+
+/-- QuadOperator branch, dictionary level: on index-sorted stored terms the key map
+`t ↦ sorted(reversed(t))` is injective, so nothing is overwritten and the Model function returns the
+term-by-term image `(sorted(reversed(t)), conj c)`, in order. -/
+theorem hc_quad_terms (A : List (List (Nat × Nat) × GQ)) (hk : (Dict.keys A).Nodup)
+    (hs : ∀ e ∈ A, e.1.Pairwise (fun a b => a.1 ≤ b.1)) :
+    (∀ a ∈ A, ∀ b ∈ A, sortF a.1.reverse = sortF b.1.reverse → a.1 = b.1) ∧
+    hcQuad A = A.map (fun e => (sortF e.1.reverse, e.2.conj)) :=
+  ⟨fun a ha b hb h => Proofs.C07A.quad_key_injective a.1 b.1 (hs a ha) (hs b hb) h,
+   Proofs.C07A.hcQuad_terms A hk hs⟩
+
 /-- QuadOperator branch: `q_j`, `p_j` are self-adjoint, so the involution is word reversal; the stored
 key `sorted(reversed(t))` denotes the reversed word for every `ħ` and every monomial. -/
 theorem hc_quad_term_sound (hbar : GQ) (t t₁ t₂ : List (Nat × Nat)) (e : Spec.Mono) :
@@ -682,6 +747,29 @@ theorem dc_commutator_fallback_sound (tol : Rat) (a b prior : List (List (Nat ×
           Proofs.C03.fockInterp.evalOp b * Proofs.C03.fockInterp.evalOp a) := by
   rw [hexact]
   exact dc_commutator_fallback_sound_ring Proofs.C03.fockInterp fock_CARRel Proofs.C07D.fock_ι_mul a b prior ha hb
+
+/-- **`commutator_def_ring` / `anticommutator_def_ring`**: for FermionOperators, in every ring interpretation
+of the ladder operators with multiplicative coefficients (no relations needed: the product loop only
+concatenates words), `commutator(A, B)` denotes `AB - BA` and `anticommutator(A, B)` denotes `AB + BA`
+(tolerance 0: nothing pruned by the in-place addition), for ALL operators. -/
+theorem commutator_def_ring {A : Type} [Ring A] (I : Proofs.C03.Interp A)
+    (hmul : ∀ x y, I.ι (x * y) = I.ι x * I.ι y) (a b : List (List (Nat × Nat) × GQ)) :
+    I.evalOp (commutator 0 .fermion a b) = I.evalOp a * I.evalOp b - I.evalOp b * I.evalOp a ∧
+    I.evalOp (anticommutator 0 .fermion a b) = I.evalOp a * I.evalOp b + I.evalOp b * I.evalOp a := by
+  refine ⟨Proofs.C07D.evalOp_commutator0 I hmul a b, ?_⟩
+  unfold anticommutator
+  rw [I.evalOp_iadd, Proofs.C07D.evalOp_mulOp I hmul, Proofs.C07D.evalOp_mulOp I hmul]
+
+/-- **the shortcut equals the generic path**: under the documented contract,
+`commutator_ordered_diagonal_coulomb_with_two_body_operator(A, B)` (any tolerance, no `prior_terms`) and
+`commutator(A, B)` (tolerance 0) denote the same element in every ring with the anticommutation
+relations — in particular the same operator on Fock space. -/
+theorem dc_commutator_eq_generic {A : Type} [Ring A] (I : Proofs.C03.Interp A) (h : CARRel I)
+    (hmul : ∀ x y, I.ι (x * y) = I.ι x * I.ι y) (tol : Rat) (a b : List (List (Nat × Nat) × GQ))
+    (ha : ∀ e ∈ a, ContractA e.1) (hb : ∀ e ∈ b, ContractB e.1) :
+    I.evalOp (dcCommutator tol a b []) = I.evalOp (commutator 0 .fermion a b) := by
+  rw [dc_commutator_sound_ring I h hmul tol a b [] ha hb, (commutator_def_ring I hmul a b).1]
+  simp
 
 /-! ### `trivially_double_commutes_dual_basis_using_term_info` -/
 
